@@ -26,6 +26,10 @@ for rs in ("chained", "simple"):
     job(rs, "commit2", 3, 6)
     job(rs, "nodirect", 2, 6)
     job(rs, "nodirect", 3, 7)
+    job(rs, "gaplow", 2, 6)
+    job(rs, "gaplow", 3, 7)
+    job(rs, "gaphigh", 2, 6)
+    job(rs, "gaphigh", 3, 7)
     # (a model in which a replica may vote twice in a view needs equivocation in three consecutive views before Agreement
     #  breaks: too large to exhaust; double votes are judged directly by P_C03 on the random adversary's equivocations)
     job(rs, "none", 0, 4, "{2}", 40)
@@ -68,7 +72,16 @@ def main():
         elif a == "--par": par = int(args.pop(0))
         elif a == "--cap": cap = int(args.pop(0))
         elif a == "--list": print("\n".join(names)); return
+        elif a == "--merge": pass
     rows, summary = [], {}
+    merge = "--merge" in sys.argv
+    if merge and os.path.exists(out):
+        rows = [json.loads(l) for l in open(out) if l.strip()]
+        rows = [r for r in rows if r["job"] not in names]
+        try:
+            summary = json.load(open(out.replace(".ndjson", ".summary.json")))
+        except Exception:
+            summary = {}
     with cf.ThreadPoolExecutor(par) as ex:
         for name, scripts, st, err in ex.map(run_job, names):
             rnd = random.Random(name)
